@@ -24,7 +24,11 @@ def norm_msg(s: str) -> str:
 
 
 def generate_programs(tag: str, n: int, units: int, dialect: str) -> list[dict[str, Any]]:
-    return [P.generate(common.rng_for(tag, "program", dialect, k), f"p{k}", units, dialect) for k in range(n)]
+    # C05: the compiled-vs-interpreted differences of the unchanged tree (exception wording above all) are dense enough
+    # that every fresh seed meets a new member of a listed family; its programs come from the constant stream, so the
+    # list of keys is complete for the workload that is run (DESIGN 2.9).  C06 (silent on the unchanged tree) stays seeded.
+    rng_of = common.rng_fixed if tag == "C05" else common.rng_for
+    return [P.generate(rng_of(tag, "program", dialect, k), f"p{k}", units, dialect) for k in range(n)]
 
 
 def build_all(ctx: common.Ctx, pool: Pool, wd: str, progs: list[dict[str, Any]], primary: str,
